@@ -202,14 +202,19 @@ CHECKS["C17"] = dict(
     text="Bounded solver verdict, two engines. (M) MIR -> bit-vector path conditions of Prover::try_from_bytes and "
          "Verifier::try_from_bytes with slices modelled by length: for ALL input lengths and ALL header values no "
          "slice-index, expect or overflow panic is feasible. (K) Kani/CBMC harnesses on the real crate feed arbitrary "
-         "byte strings of bounded length to Polynomial::from_slice (quick) and CommitKey::from_raw_var_bytes, "
-         "CommitKey::from_slice, OpeningKey::from_slice, Evaluations::from_slice, Proof::from_bytes (thorough): no "
-         "panic, overflow, out-of-bounds access or unwinding-assertion failure.",
+         "byte strings of bounded length to Polynomial::from_slice, CommitKey::from_slice, Proof::from_bytes (quick) "
+         "and CommitKey::from_raw_var_bytes (thorough): no panic, overflow, out-of-bounds access or "
+         "unwinding-assertion failure. (S) symbolic execution with invalid-capable group elements (dlog + torsion + "
+         "off-curve components) and kappa-tagged scalars: on every accepting path of CommitKey::from_raw_var_bytes / "
+         "from_slice, OpeningKey::from_slice, PublicParameters::from_slice, Polynomial::from_slice, "
+         "Verifier::try_from_bytes and Prover::try_from_bytes z3 shows every element on-curve, torsion-free (opening "
+         "key: non-identity) and every scalar canonical.",
     note="partial: curve/field kernels of the dependency are contract bodies under cfg(kani); compressed circuits "
          "(inflate / MessagePack), allocation bounds, ProverKey::from_slice bodies and 'usable without panicking' are "
          "outside; Kani bounds are <= 67..1008 bytes per harness",
-    tech="MIR -> SMT-LIB bit-vectors (cvc5 --solve-bv-as-int, z3) and Kani 0.68 / CBMC 6.11 bounded model checking "
-         "with unwinding assertions")
+    tech="MIR -> SMT-LIB bit-vectors (cvc5 --solve-bv-as-int, z3); symbolic execution of the real decoders (group "
+         "model with torsion/off-curve components) + z3; Kani 0.68 / CBMC 6.11 bounded model checking with "
+         "unwinding assertions")
 
 NOT_APPLICABLE = {
     "C18": "quantifies over thread schedules, pool sizes, processes and feature builds: Kani/CBMC has no "
@@ -225,7 +230,7 @@ def main():
         ["git", "-C", "/repo", "log", "--format=%H %s"], text=True).splitlines()
     hook_commits = [l.split()[0] for l in hooks if "verif hooks" in l]
     checks = []
-    ENG = {"C15": "mir+smt", "C17": "mir+smt and kani", "C01": "symfield+z3 and mir+smt"}
+    ENG = {"C15": "mir+smt and symfield+z3", "C17": "mir+smt, symfield+z3 and kani", "C01": "symfield+z3 and mir+smt"}
     for pid, c in sorted(CHECKS.items()):
         checks.append({
             "property_id": pid,
@@ -256,7 +261,7 @@ def main():
         },
         "engines": [
             {"name": "symfield+z3", "path": "/verif/vendor/dusk-bls12_381-sym, /verif/drivers, /verif/py",
-             "serves_properties": sorted(k for k in CHECKS if k not in ("C15", "C17")),
+             "serves_properties": sorted(CHECKS.keys()),
              "kind_free_text": "symbolic execution of the real Rust code by a term-recording copy of the "
                                "dependency dusk-bls12_381; terms decided by z3 over the integers mod r"},
             {"name": "mir+smt", "path": "/verif/py/mir.py, /verif/py/mirdump.py, /verif/py/checks/capacity.py, "
